@@ -23,6 +23,13 @@ func (fc *FuncCtx) cevalIn(env *CEnv, c *Clause, n ast.Node) (t Term) {
 	}()
 	var side []string
 	setSide(env, &side)
+	def := func(t Term) Term { return fc.compact(t) }
+	env.define = def
+	for _, o := range []*CEnv{env.old, env.pre, env.iter} {
+		if o != nil {
+			o.define = def
+		}
+	}
 	t = env.eval(c.Expr)
 	seen := map[string]bool{}
 	for _, f := range side {
@@ -44,6 +51,11 @@ func (fc *FuncCtx) codeEnv(st *State, at token.Pos) *CEnv {
 	env.lookup = func(name string) (Term, bool) {
 		if g, ok := st.ghost[name]; ok {
 			return g, true
+		}
+		if v := fc.rangeAlias[name]; v != nil {
+			if t, ok := st.vars[v]; ok {
+				return mkMath(t.S), true
+			}
 		}
 		if scope != nil {
 			if _, obj := scope.LookupParent(name, at); obj != nil {
